@@ -2,8 +2,8 @@ package rules
 
 import (
 	"fmt"
-	"sort"
 	"go/types"
+	"sort"
 	"strings"
 
 	"bxhlint/core"
@@ -310,6 +310,8 @@ func C15(c *Ctx) {
 
 	// R15.7 electorate changes reach every live proposal
 	r.Rule("R15.7", "electorate changes reach every live proposal: in UpdateAvailableElectorateNum the store of the new AvailableElectorateNum is reachable with every non-final status (all ProposalStatus constants except APPROVED / REJECTED; enum refinement over the comparisons of p.Status on the way): a paused proposal that misses the update is decided against a stale electorate when it is restored.")
+	r.Rule("R15.8", "who counts as available: the status sets behind Role.IsAvailable() and Dapp.IsAvailable() (roleAvailableMap, dappAvailableMap) stay within the reference frozen in the checker (available, freezing [, transferring]); a status added to such a set lets objects act that the lifecycle has taken out of service (an admin with a pending logout keeps voting and counting in the electorate).")
+	c.c15Availability()
 	if up := c.fn("R15.7", govPrefix+"UpdateAvailableElectorateNum"); up != nil {
 		nUp := 0
 		isUpd := storesToField("Proposal", "AvailableElectorateNum")
@@ -489,7 +491,6 @@ func constOfPkg(c *Ctx, name string) string {
 	return strings.Trim(k.Val().ExactString(), "\"")
 }
 
-
 // statusConsts: the constants a status-typed value may be - a constant, a phi of constants, or the result of a
 // module function all of whose returns are such values. Empty when any origin is not a constant.
 func statusConsts(c *Ctx, v ssa.Value, depth int) []string {
@@ -528,4 +529,78 @@ func statusConsts(c *Ctx, v ssa.Value, depth int) []string {
 	}
 	sort.Strings(out)
 	return out
+}
+
+// availabilityReference: the statuses in which an object of the repository's own governance tables counts as
+// available (confirmed by reading: a pending freeze leaves the object usable, a pending logout / pause / a frozen or
+// forbidden object does not). A status added to one of these sets widens who may act (an admin whose logout is
+// pending keeps voting) and is reported; a removed status is not.
+var availabilityReference = map[string]string{
+	"roleAvailableMap": "available,freezing",
+	"dappAvailableMap": "available,freezing,transferring",
+}
+
+// c15Availability: R15.8.
+func (c *Ctx) c15Availability() {
+	r := c.R
+	sets := map[string]map[string]bool{}
+	var inits []*ssa.Function
+	if pk := c.P.Package(core.ContractPkg); pk != nil {
+		if sp := c.P.SSA.Package(pk.Types); sp != nil {
+			if f := sp.Func("init"); f != nil {
+				inits = append(inits, f)
+			}
+		}
+	}
+	for _, fn := range inits {
+		for _, b := range fn.Blocks {
+			for _, in := range b.Instrs {
+				st, ok := in.(*ssa.Store)
+				if !ok {
+					continue
+				}
+				g, isG := st.Addr.(*ssa.Global)
+				if !isG || availabilityReference[g.Name()] == "" || st.Val.Referrers() == nil {
+					continue
+				}
+				sets[g.Name()] = map[string]bool{}
+				for _, ref := range *st.Val.Referrers() {
+					if mu, isMu := ref.(*ssa.MapUpdate); isMu && mu.Map == st.Val {
+						if s, isC := core.ConstString(mu.Key); isC {
+							sets[g.Name()][s] = true
+						}
+					}
+				}
+			}
+		}
+	}
+	n := 0
+	var names []string
+	for k := range availabilityReference {
+		names = append(names, k)
+	}
+	sort.Strings(names)
+	for _, name := range names {
+		set := sets[name]
+		if set == nil {
+			continue
+		}
+		n++
+		allowed := map[string]bool{}
+		for _, s := range strings.Split(availabilityReference[name], ",") {
+			allowed[s] = true
+		}
+		var extra, have []string
+		for s := range set {
+			have = append(have, s)
+			if !allowed[s] {
+				extra = append(extra, s)
+			}
+		}
+		sort.Strings(have)
+		sort.Strings(extra)
+		r.Check(len(extra) == 0, "R15.8", name+": statuses that count as available stay within the reference", "", "{"+strings.Join(have, ",")+"} within {"+availabilityReference[name]+"}",
+			"the status set behind IsAvailable() gained "+strings.Join(extra, ",")+": objects in that status - e.g. an administrator whose logout proposal is pending - count as available again: they vote, stay in the electorate and keep thresholds from being reached")
+	}
+	r.Floor("R15.8", "availability sets found", n, 2)
 }
